@@ -658,6 +658,10 @@ class Facts:
         mutated = set()
         if a is None:
             return apaths, cattrs, mutated
+        if n.kind == "join":
+            # carries the truth of a compound test; its operands are test nodes of their own and
+            # have already contributed what their calls may write
+            return apaths, cattrs, mutated
         root = a
         if n.kind == "for":
             apaths |= assigned_paths(a)
